@@ -15,15 +15,22 @@ import (
 
 // A mutant is /verif/selftest/{mutants,refactors}/<property>/<name>.diff (unified diff against /repo, -p1).
 func selftest(args []string) int {
-	only := ""
-	if len(args) > 0 {
-		only = args[0]
+	only, onlyKind := "", ""
+	for _, a := range args {
+		if a == "mutants" || a == "refactors" {
+			onlyKind = a
+		} else {
+			only = a
+		}
 	}
 	type job struct {
 		kind, prop, path string
 	}
 	var jobs []job
 	for _, kind := range []string{"mutants", "refactors"} {
+		if onlyKind != "" && onlyKind != kind {
+			continue
+		}
 		files, _ := filepath.Glob(filepath.Join(verifDir, "selftest", kind, "*", "*.diff"))
 		sort.Strings(files)
 		for _, f := range files {
